@@ -496,6 +496,10 @@ def get_async(
                     used_workers = -(len(state["running"]) // -chunksize)
                     avail_workers = max(num_workers - used_workers, 0)
                     ntasks = min(nready, chunksize * avail_workers)
+                if not ntasks:
+                    # nothing to submit (with chunksize=-1 the computed
+                    # chunk size would be zero)
+                    return
 
                 # Prep all ready tasks for submission
                 args = []
